@@ -132,6 +132,23 @@ class C01(Plan):
         return g.cases
 
 
+def api_audit(self, tier, wd):
+    """every public function / trait impl of src/*.rs has an image in the model (tools/apisurface.py)"""
+    import engine as E
+    import apisurface
+    unknown, seen = apisurface.audit(E.REPO)
+    self.api = {"items": len(seen), "unmodelled": unknown}
+    if unknown:
+        return [("API surface: every public item of src/*.rs is covered by the model", False,
+                 {"unmodelled_items": unknown,
+                  "meaning": "these public items have no Gallina image, no theorem and no correspondence case; the property "
+                             "quantifies over every operation of the API, so it is no longer shown to hold"}, True)]
+    return [("API surface: all %d public functions and trait impls of src/*.rs are covered by the model" % len(seen), True, "")]
+
+
+C01.extra_obligations = api_audit
+
+
 class C02(Plan):
     pid = "C02"
     corr = ("r-", "sz", "c")
@@ -499,6 +516,9 @@ class C11(Plan):
                                     ["fill_buf std", "flush std"] + ["consume std %d" % k for k in (0, 1, N, N + 2, MAX)],
                    elem="u8")
         return g.cases
+
+
+C11.extra_obligations = api_audit
 
 
 class C12(Plan):
